@@ -107,3 +107,46 @@ func verifH_C07_no_authorization_before_registration() {
 	verifAssert(len(s.equipment) == 0, "no_equipment")
 	verifReach("end")
 }
+
+// C07 (concurrency): a second correctly signed registration for another key
+// runs at any point where the first one does not hold the server mutex
+// (before its first Lock, or at any later Lock it takes). Exactly one of the
+// two may succeed, and the key in memory and on disk is the accepted one.
+func verifH_C07_concurrent_registrations() {
+	s := verifNewServer()
+	tempPub, tempPriv := verifKeyPair("temp")
+	s.gcaTempKey = tempPub
+	k1, _ := verifKeyPair("gca1")
+	k2, _ := verifKeyPair("gca2")
+	verifAssume(k1 != k2)
+	g1 := GCARegistration{GCAKey: k1}
+	g1.Signature = glow.Sign(g1.SigningBytes(), tempPriv)
+	g2 := GCARegistration{GCAKey: k2}
+	g2.Signature = glow.Sign(g2.SigningBytes(), tempPriv)
+	gap := verifCase("gap", 1, 3)
+	locks := 0
+	var err2 error
+	ran := false
+	verifOnLock(func() {
+		locks++
+		if locks == gap && !ran {
+			ran = true
+			err2 = s.registerGCA(g2)
+		}
+	})
+	err1 := s.registerGCA(g1)
+	if !ran {
+		return // registerGCA takes fewer than `gap` locks: nothing was interleaved
+	}
+	verifAssert(!(err1 == nil && err2 == nil), "at_most_one_registration_succeeds")
+	verifAssert(err1 == nil || err2 == nil, "one_of_two_valid_registrations_succeeds")
+	want := k1
+	if err1 != nil {
+		want = k2
+	}
+	verifAssert(s.gcaPubkeyAvailable && s.gcaPubkey == want, "installed_key_is_the_accepted_one")
+	file, ok := verifGCAFile(s)
+	verifAssert(ok && string(file) == string(want[:]), "persisted_key_is_the_accepted_one")
+	verifAssert(verifLocksHeld() == 0, "lock_released")
+	verifReach("end")
+}
